@@ -207,6 +207,9 @@ pub struct Registry {
     pub runs: BTreeMap<String, Vec<(String, String)>>,
     pub results: Vec<OpResult>,
     pub run_counter: u64,
+    /// (frame id, op name) acknowledged to the caller, in acknowledgement order, recorded the
+    /// moment the appending call returns Ok
+    pub acks: Vec<(String, String)>,
 }
 
 pub struct World {
@@ -280,6 +283,10 @@ impl World {
         format!("run-{actor}-{}", reg.run_counter)
     }
 
+    pub fn ack(&self, id: &str, op: &str) {
+        self.reg.lock().unwrap().acks.push((id.to_string(), op.to_string()));
+    }
+
     pub fn record(&self, r: OpResult) {
         self.reg.lock().unwrap().results.push(r);
     }
@@ -327,7 +334,8 @@ impl World {
                 match store.append_message(&t, who, origin, content) {
                     Ok(id) => {
                         res.ok = true;
-                        res.acked_ids.push(id.clone());
+                        self.ack(&id, op.name());
+res.acked_ids.push(id.clone());
                         self.reg
                             .lock()
                             .unwrap()
@@ -349,7 +357,8 @@ impl World {
                 match store.append_run_spawned(&t, &m, &run, who, origin) {
                     Ok(id) => {
                         res.ok = true;
-                        res.acked_ids.push(id);
+                        self.ack(&id, op.name());
+res.acked_ids.push(id);
                         self.reg
                             .lock()
                             .unwrap()
@@ -370,7 +379,8 @@ impl World {
                 match store.append_run_ended(&t, &m, &run, "completed".into(), who, origin) {
                     Ok(id) => {
                         res.ok = true;
-                        res.acked_ids.push(id);
+                        self.ack(&id, op.name());
+res.acked_ids.push(id);
                     }
                     Err(e) => res.err = Some(e),
                 }
@@ -404,7 +414,8 @@ impl World {
                 match store.append_tool_side_effects(&link, &run, eff) {
                     Ok(id) => {
                         res.ok = true;
-                        res.acked_ids.push(id);
+                        self.ack(&id, op.name());
+res.acked_ids.push(id);
                     }
                     Err(e) => res.err = Some(e),
                 }
@@ -457,7 +468,8 @@ impl World {
                 ) {
                     Ok(id) => {
                         res.ok = true;
-                        res.acked_ids.push(id);
+                        self.ack(&id, op.name());
+res.acked_ids.push(id);
                     }
                     Err(e) => res.err = Some(e),
                 }
@@ -478,7 +490,8 @@ impl World {
                         res.ok = true;
                         res.noop = !r.rotated;
                         if let Some(id) = r.cursor_event_id.clone() {
-                            res.acked_ids.push(id);
+                            self.ack(&id, op.name());
+res.acked_ids.push(id);
                         }
                         res.response = serde_json::to_value(&r).ok();
                     }
@@ -612,7 +625,8 @@ impl World {
                         return res;
                     }
                 };
-                res.acked_ids.push(m.clone());
+                self.ack(&m, op.name());
+res.acked_ids.push(m.clone());
                 self.reg
                     .lock()
                     .unwrap()
@@ -622,7 +636,10 @@ impl World {
                     .push(m.clone());
                 let run = self.new_run_id(actor);
                 match store.append_run_spawned(&t, &m, &run, who.clone(), origin.clone()) {
-                    Ok(id) => res.acked_ids.push(id),
+                    Ok(id) => {
+                        self.ack(&id, op.name());
+                        res.acked_ids.push(id);
+                    }
                     Err(e) => {
                         res.err = Some(e);
                         return res;
@@ -666,7 +683,10 @@ impl World {
                         checkpoint_id: None,
                     };
                     match store.append_tool_side_effects(&link, &run, eff) {
-                        Ok(id) => res.acked_ids.push(id),
+                        Ok(id) => {
+                            self.ack(&id, op.name());
+                            res.acked_ids.push(id);
+                        }
                         Err(e) => {
                             res.err = Some(e);
                             return res;
@@ -690,7 +710,10 @@ impl World {
                             origin: origin.clone(),
                         },
                     ) {
-                        Ok(id) => res.acked_ids.push(id),
+                        Ok(id) => {
+                            self.ack(&id, op.name());
+                            res.acked_ids.push(id);
+                        }
                         Err(e) => {
                             res.err = Some(e);
                             return res;
@@ -699,7 +722,8 @@ impl World {
                 }
                 match store.append_run_ended(&t, &m, &run, "completed".into(), who, origin) {
                     Ok(id) => {
-                        res.acked_ids.push(id);
+                        self.ack(&id, op.name());
+res.acked_ids.push(id);
                         res.ok = res.err.is_none();
                     }
                     Err(e) => res.err = Some(e),
@@ -849,7 +873,8 @@ impl World {
                         res.err = Some(e.to_string());
                         return res;
                     }
-                    res.acked_ids.push(ev.id);
+                    self.ack(&ev.id, op.name());
+res.acked_ids.push(ev.id);
                 }
                 res.ok = true;
             }
